@@ -64,15 +64,27 @@ def generate():
         idx = [n for n in ast.walk(fn) if isinstance(n, ast.Assign) and ast.unparse(n).replace(" ", "") == "j=t[i:].index(a)"]
         if len(idx) != 1:
             raise ShapeError("read_sys_comment: `j = t[i:].index(a)` not found")
-        rets = [n for n in ast.walk(fn) if isinstance(n, ast.Return)]
+        rets = [n for n in ast.walk(fn) if isinstance(n, ast.Return) and n.lineno > w.lineno]
         if len(rets) != 1 or ast.unparse(rets[0]).replace(" ", "") != "returni+j+len(a)":
-            raise ShapeError("read_sys_comment: return is not i + j + len(a)")
+            raise ShapeError("read_sys_comment: return after the loop is not i + j + len(a)")
+        for n in ast.walk(fn):
+            if isinstance(n, ast.Return) and n.lineno < w.lineno and ast.unparse(n).replace(" ", "") != "returni":
+                raise ShapeError("read_sys_comment: unexpected return before the loop")
         t = w.test
         call = "t[i+j+1:].startswith(a)"
-        if ast.unparse(t).replace(" ", "") == call:
-            return False
+        nonempty = ("a", "len(a)>0", "len(a)!=0", "a!=''", 'a!=""', "len(a)")
+        empty = ("nota", "len(a)==0", "a==''", 'a==""', "notlen(a)")
+        norm = lambda e: ast.unparse(e).replace(" ", "")
+        # an early `if <a is empty>: return i` before the loop is the same guard (index("") is 0)
+        early = False
+        for n in ast.walk(fn):
+            if isinstance(n, ast.If) and norm(n.test) in empty and not n.orelse and len(n.body) == 1 \
+                    and isinstance(n.body[0], ast.Return) and norm(n.body[0]) == "returni" and n.lineno < w.lineno:
+                early = True
+        if norm(t) == call:
+            return early
         if isinstance(t, ast.BoolOp) and isinstance(t.op, ast.And) and len(t.values) == 2 \
-                and ast.unparse(t.values[0]) == "a" and ast.unparse(t.values[1]).replace(" ", "") == call:
+                and norm(t.values[0]) in nonempty and norm(t.values[1]) == call:
             return True
         raise ShapeError("read_sys_comment: loop test not recognised: " + ast.unparse(t))
     g, why = astlib.try_flag(guard)
@@ -194,33 +206,59 @@ class Impl:
         self.EV = ev.LINE | ev.PY_START | ev.CALL | ev.JUMP
         self.n = 0
         self.lim = 10 ** 18
+        self.active = False
         for e in (ev.LINE, ev.PY_START, ev.CALL, ev.JUMP):
             self.mon.register_callback(self.tool, e, self._cb)
+        self.instrumented = 0
+        self.instrument()
+
+    def instrument(self):
+        """count events in every code object of the klongpy package under test (local events: harness code is not slowed)"""
+        import gc
+        import types
+        root = os.path.join(os.path.realpath(REPO), "klongpy") + os.sep
+        seen = set()
+
+        def walk(code):
+            if code in seen:
+                return
+            seen.add(code)
+            self.mon.set_local_events(self.tool, code, self.EV)
+            for c in code.co_consts:
+                if isinstance(c, types.CodeType):
+                    walk(c)
+        for o in gc.get_objects():
+            if isinstance(o, types.FunctionType):
+                code = o.__code__
+                if os.path.realpath(code.co_filename).startswith(root):
+                    walk(code)
+        self.instrumented = len(seen)
+        if self.instrumented < 200:
+            raise RuntimeError("only %d klongpy code objects found for instrumentation" % self.instrumented)
 
     def close(self):
-        self.mon.set_events(self.tool, 0)
         try:
             self.mon.free_tool_id(self.tool)
         except Exception:
             pass
 
     def _cb(self, *a):
-        self.n += 1
-        if self.n > self.lim:
-            self.lim = 10 ** 18
-            raise Budget()
+        if self.active:
+            self.n += 1
+            if self.n > self.lim:
+                self.active = False
+                raise Budget()
 
     def budgeted(self, fn, limit):
         """('ok', value) | ('err', class name) | ('hang',) | ('rec',), events used"""
         self.n = 0
         self.lim = limit
         try:
-            self.mon.set_events(self.tool, self.EV)
+            self.active = True
             try:
                 v = fn()
             finally:
-                self.mon.set_events(self.tool, 0)
-                self.lim = 10 ** 18
+                self.active = False
             return ("ok", v), self.n
         except Budget:
             return ("hang",), self.n
@@ -233,11 +271,16 @@ class Impl:
         return [{key: id(v) for key, v in d.items()} for d in k._context._context]
 
     def parse(self, text, k=None):
+        """parse in module None (the module is parser state set by `.module(..)` inside a text: reset before and after)"""
         k = k or self.k
         k._module = None
         r, n = self.budgeted(lambda: k.prog(text), BUDGET(len(text)))
         k._module = None
         return r, n
+
+    def parse_keep_module(self, text, k):
+        k._module = None
+        return self.budgeted(lambda: k.prog(text), BUDGET(len(text)))
 
     # canonical dump -----------------------------------------------------------------
     def num(self, v, inlist):
@@ -290,7 +333,20 @@ class Impl:
             return ["py"] + [self.dump(y) for y in x]
         if isinstance(x, (int, float, np.integer, np.floating, bool, np.bool_)):
             return self.num(x, inlist)
+        if isinstance(x, dict):     # evaluation results only
+            items = [[self.dump(kk, True), self.dump(v, True)] for kk, v in x.items()]
+            return ["D"] + sorted(items, key=repr)
+        if x is c.KLONG_UNDEFINED:
+            return ["undefined"]
         return ["other", type(x).__name__]
+
+    def dump_value(self, v):
+        old = sys.getrecursionlimit()
+        sys.setrecursionlimit(20000)
+        try:
+            return repr(self.dump(v))
+        finally:
+            sys.setrecursionlimit(old)
 
     def dump_prog(self, v):
         old = sys.getrecursionlimit()
@@ -429,7 +485,7 @@ def edit_once(toks, rng):
 
 
 def nestings(tier):
-    depths = [1, 2, 3, 7, 40, 120, 200] if tier == "quick" else [1, 2, 3, 5, 7, 20, 40, 80, 120, 160, 200]
+    depths = [1, 2, 3, 8, 30, 100] if tier == "quick" else [1, 2, 3, 5, 8, 20, 30, 60, 100, 150, 200]
     units = [("[", "]"), ("(", ")"), ("{", "}"), (":[", ";1;2]"), ("f(", ")"), ("1+", "1"), ("+/", "1"), (":{[1 ", "]}"),
              ("[;", "]"), ("-", "1"), ("{x}'", "[1]"), ("a::", "1"), ("f(;", ")"), (":[1;", ";2]"), (":[1;2:|", "3;4;5]"),
              ('.comment("q")q', "1"), (':"c"', "1"), ("[1 ", "]"), ("\n", "1"), ("{[a];", "}")]
@@ -484,9 +540,58 @@ def can_eval(text):
 
 
 # ---------------------------------------------------------------- the check
+class Oracle:
+    """the property's own oracle on the implementation (no model involved)"""
+
+    def __init__(self, impl):
+        self.impl = impl
+        self.k1, self.k2 = impl.K(), impl.K()
+        for kk in (self.k1, self.k2):
+            kk("t::{y~z}")
+        self.max_ratio = 0.0
+        self.probes = []          # (text, first canonical result) re-parsed at the end of the run
+        self.error_texts = []
+        self.ncheck = 0
+
+    def check(self, kind, text, ev, chk=None):
+        """-> (failure dict | None, canonical result of the first parse, events)"""
+        impl = self.impl
+        before = impl.snapshot(impl.k)
+        r1, n1 = impl.parse(text)
+        after = impl.snapshot(impl.k)
+        c1 = ("ok", impl.dump_prog(r1[1])) if r1[0] == "ok" else r1      # dumped before the second parse can touch it
+        r2, n2 = impl.parse(text)
+        self.max_ratio = max(self.max_ratio, n1 / BUDGET(len(text)))
+        c2 = ("ok", impl.dump_prog(r2[1])) if r2[0] == "ok" else r2
+        self.ncheck += 1
+        if r1[0] == "err" and len(self.error_texts) < 4000:
+            self.error_texts.append(text)
+        if len(self.probes) < 600 and (self.ncheck % 37 == 1 or kind == "witness") and r1[0] in ("ok", "err") and len(text) < 2000:
+            self.probes.append((text, c1))
+        if r1[0] == "hang" or r2[0] == "hang":
+            return {"kind": "hang", "text": text, "events": n1, "budget": BUDGET(len(text)), "case": kind}, c1, n1
+        if c1 != c2:
+            return {"kind": "reparse-differs", "text": text, "first": repr(c1)[:300], "second": repr(c2)[:300],
+                    "events": [n1, n2], "case": kind}, c1, n1
+        if before != after:
+            return {"kind": "parse-touched-variables", "text": text, "case": kind}, c1, n1
+        if ev and r1[0] == "ok" and can_eval(text):
+            p1 = r1[1][1]
+            p2 = r2[1][1]
+            e1, _ = impl.budgeted(lambda: [self.k1.call(y) for y in p1], EVAL_BUDGET)
+            e2, _ = impl.budgeted(lambda: [self.k2.call(y) for y in p2], EVAL_BUDGET)
+            d1 = ("ok", impl.dump_value(e1[1])) if e1[0] == "ok" else e1
+            d2 = ("ok", impl.dump_value(e2[1])) if e2[0] == "ok" else e2
+            if chk is not None:
+                chk.count("evaluated_twice")
+            if d1 != d2:
+                return {"kind": "re-evaluation-differs", "text": text, "first": repr(d1)[:300], "second": repr(d2)[:300],
+                        "case": kind}, c1, n1
+        return None, c1, n1
+
+
 def check_all(chk, rng, impl, cases_iter):
     """returns (property failures, correspondence failures)"""
-    from .canon import canon
     cases = []
     seen = set()
     for kind, text, ev in cases_iter:
@@ -497,43 +602,18 @@ def check_all(chk, rng, impl, cases_iter):
         cases.append((kind, text, ev))
     model = chk.run_model([model_req(t) for _, t, _ in cases])
     prop_bad, corr_bad = [], []
-    k1, k2 = impl.K(), impl.K()
-    for kk in (k1, k2):
-        kk("t::{y~z}")
+    orc = Oracle(impl)
     shapes = set()
-    max_ratio = 0.0
     for (kind, text, ev), mr in zip(cases, model):
         chk.count("evaluations")
         chk.count("cases_" + kind)
-        before = impl.snapshot(impl.k)
-        r1, n1 = impl.parse(text)
-        after = impl.snapshot(impl.k)
-        r2, n2 = impl.parse(text)
-        max_ratio = max(max_ratio, n1 / BUDGET(len(text)))
-        c1 = ("ok", impl.dump_prog(r1[1])) if r1[0] == "ok" else r1
-        c2 = ("ok", impl.dump_prog(r2[1])) if r2[0] == "ok" else r2
-        shape = (c1[0], c1[1] if c1[0] == "err" else None, kind)
-        # ---- property oracle
-        if r1[0] == "hang" or r2[0] == "hang":
-            prop_bad.append({"kind": "hang", "text": text, "events": n1, "budget": BUDGET(len(text)), "case": kind})
+        bad, c1, n1 = orc.check(kind, text, ev, chk)
+        if bad is not None:
+            prop_bad.append(bad)
+            if len(prop_bad) >= 5:
+                chk.count("stopped_early_after_5_failures")
+                break
             continue
-        if c1 != c2:
-            prop_bad.append({"kind": "reparse-differs", "text": text, "first": repr(c1)[:300], "second": repr(c2)[:300], "case": kind})
-            continue
-        if before != after:
-            prop_bad.append({"kind": "parse-touched-variables", "text": text, "case": kind})
-            continue
-        if ev and r1[0] == "ok" and can_eval(text):
-            p1 = r1[1][1]
-            p2 = r2[1][1]
-            e1, _ = impl.budgeted(lambda: [k1.call(y) for y in p1], EVAL_BUDGET)
-            e2, _ = impl.budgeted(lambda: [k2.call(y) for y in p2], EVAL_BUDGET)
-            d1 = ("ok", sx(canon(e1[1]))) if e1[0] == "ok" else e1
-            d2 = ("ok", sx(canon(e2[1]))) if e2[0] == "ok" else e2
-            chk.count("evaluated_twice")
-            if d1 != d2:
-                prop_bad.append({"kind": "re-evaluation-differs", "text": text, "first": repr(d1)[:300], "second": repr(d2)[:300], "case": kind})
-                continue
         # ---- correspondence with the model
         m = impl.mres(mr)
         ok = True
@@ -546,8 +626,7 @@ def check_all(chk, rng, impl, cases_iter):
             ok = (m[0] == "err" and m[1] == c1[1])
         if not ok:
             corr_bad.append({"kind": "model-differs", "text": text, "impl": repr(c1)[:400], "model": repr(m)[:400], "case": kind})
-        if shape not in shapes and text.strip():
-            shapes.add(shape)
+        shapes.add((c1[0], c1[1] if c1[0] == "err" else None, kind))
         if c1[0] == "ok" and c1[1][1]:
             chk.count("parsed_nonempty")
         elif c1[0] == "err":
@@ -555,13 +634,78 @@ def check_all(chk, rng, impl, cases_iter):
         if chk.counters["evaluations"] % 3001 == 7:
             chk.sample({"case": kind, "text": text[:80], "impl": c1[0] if c1[0] != "err" else c1[1], "events": n1,
                         "budget": BUDGET(len(text))}, limit=8)
+    # history independence: texts parsed early in the run are parsed again by the same interpreter after
+    # everything else (all the malformed texts included) went through it
+    for idx, probe in enumerate(orc.probes):
+        text, c_first = probe
+        r, n = impl.parse(text)
+        c_now = ("ok", impl.dump_prog(r[1])) if r[0] == "ok" else r
+        rf, _ = impl.parse(text, impl.K())                      # the same text in a fresh interpreter
+        c_fresh = ("ok", impl.dump_prog(rf[1])) if rf[0] == "ok" else rf
+        chk.count("late_reparses")
+        if c_now != c_first or c_now != c_fresh:
+            c_first = c_fresh
+            bad = {"kind": "reparse-after-other-texts-differs", "text": text, "fresh_interpreter": repr(c_first)[:300],
+                   "later": repr(c_now)[:300], "history": "all texts of this run (tier %s, seed %d) parsed in between" % (chk.tier, chk.seed)}
+            # look for a one-text history that already changes the result
+            for cand in orc.error_texts[:4000]:
+                kk = impl.K()
+                impl.parse(cand, kk)
+                r3, _ = impl.parse_keep_module(text, kk)
+                c3 = ("ok", impl.dump_prog(r3[1])) if r3[0] == "ok" else r3
+                if c3 != c_first:
+                    bad["history"] = [cand]
+                    break
+            prop_bad.append(bad)
+            break
     chk.counters["distinct_nontrivial"] = len([1 for (kind, text, ev) in cases if text.strip()])
     chk.counters["outcome_classes"] = len(shapes)
-    chk.counters["max_budget_fraction_permille"] = int(max_ratio * 1000)
-    return prop_bad, corr_bad
+    chk.counters["max_budget_fraction_permille"] = int(orc.max_ratio * 1000)
+    return prop_bad, corr_bad, seen
+
+
+def search_failing(chk, rng, impl, seeds, seen):
+    """wider sweep for a failing input of the PROPERTY (hang / re-parse / re-evaluation), used when the model
+    disagrees with the implementation or a proof obligation broke.  Neighbourhood of the disagreeing texts
+    first, then every string of 3 alphabet tokens."""
+    orc = Oracle(impl)
+
+    def candidates():
+        for text in seeds[:25]:
+            toks = tokenize(text)
+            for i in range(len(toks) + 1):
+                yield "".join(toks[:i])
+                yield "".join(toks[i:])
+            for i in range(len(toks)):
+                yield "".join(toks[:i] + toks[i + 1:])
+            for i in range(min(len(toks) + 1, 40)):
+                for a in ALPHABET:
+                    yield "".join(toks[:i] + [a] + toks[i:])
+        for w in WITNESS_TEXTS:
+            for a in ALPHABET:
+                yield w + a
+                yield a + w
+        if chk.tier == "quick":
+            for tup in itertools.product(ALPHABET, repeat=3):
+                yield "".join(tup)
+    n = 0
+    for text in candidates():
+        if text in seen:
+            continue
+        seen.add(text)
+        n += 1
+        chk.count("search_evaluations")
+        bad, _, _ = orc.check("search", text, False)
+        if bad is not None:
+            return bad
+        if n >= 150000:
+            break
+    return None
 
 
 R6_TEXT = '.comment("")'
+WITNESS_TEXTS = [R6_TEXT, R6_TEXT + " 1", "a::1;" + R6_TEXT + "\nb", '.comment("")"")', ".comment(0c )", '.comment("q")q',
+                 '.comment("ab")ababab 1', ".comment(x) x", 'f(.comment(""))', '{.comment("")}']
 
 
 def run(tier, replay=None):
@@ -577,38 +721,41 @@ def run(tier, replay=None):
         proof["broken"] = hits[0]
     impl = Impl()
     try:
-        # known finding R6 (kept only while the finding is listed as known)
-        for f in chk.known:
-            if f.get("status", "known") == "known" and f["id"] == "C12-comment-empty-marker":
-                r, n = impl.parse(R6_TEXT)
-                m = chk.run_model([model_req(R6_TEXT)])[0]
-                if r[0] == "hang" and m[0] == "oof":
-                    chk.finding(f["id"], "parser does not terminate on .comment(\"\")", {"text": R6_TEXT})
-        prop_bad, corr_bad = check_all(chk, rng, impl, gen_cases(chk, rng))
+        # replay of the (repaired) finding R6 and of the Coq witnesses on the implementation
+        known = chk.match_known("C12-comment-empty-marker")
+        cases = itertools.chain((("witness", w, False) for w in WITNESS_TEXTS), gen_cases(chk, rng))
+        prop_bad, corr_bad, seen = check_all(chk, rng, impl, cases)
+        reported = []
+        for bp in prop_bad:
+            if bp["kind"] == "hang" and known and '.comment("")' in bp["text"].replace(" ", ""):
+                chk.finding("C12-comment-empty-marker", "hang", bp)
+                continue
+            reported.append(bp)
+        for bp in reported[:5]:
+            chk.violation("parser property fails on the implementation (%s): %r" % (bp["kind"], bp["text"][:80]), bp)
+        if not chk.violations and (corr_bad or not proof["ok"]):
+            found = search_failing(chk, rng, impl, [c["text"] for c in corr_bad], seen)
+            why = ("correspondence with the Coq model broke on %d of %d texts (first: %r)" % (
+                len(corr_bad), chk.counters.get("evaluations", 0), corr_bad[0]["text"][:60])) if corr_bad else \
+                ("proof obligation no longer checks: %s" % proof["broken"])
+            if found is not None:
+                found["found_by"] = "wider sweep after: " + why
+                chk.violation("parser property fails on the implementation (%s): %r" % (found["kind"], found["text"][:80]), found)
+            elif corr_bad:
+                chk.violation(why + "; no failing input of the property found in %d further texts" % chk.counters.get("search_evaluations", 0),
+                              {"broken": "correspondence C12/Model.v", "first": corr_bad[:5]}, no_input=True)
+            else:
+                chk.violation(why, {"broken_obligation": proof["broken"], "coq_error": proof["error"],
+                                    "generated": chk.generated_text}, no_input=True)
     finally:
         impl.close()
-    known_texts = set()
-    if chk.match_known("C12-comment-empty-marker"):
-        known_texts = None  # decided per case below
-    for bp in prop_bad:
-        if bp["kind"] == "hang" and chk.match_known("C12-comment-empty-marker") and '.comment("")' in bp["text"].replace(" ", ""):
-            chk.finding("C12-comment-empty-marker", "hang", bp)
-            continue
-        if len(chk.violations) < 5:
-            chk.violation("parser property fails on the implementation (%s): %r" % (bp["kind"], bp["text"][:80]), bp)
-    if not chk.violations:
-        if corr_bad:
-            chk.violation("correspondence between klongpy's parser and the Coq model broke on %d of %d texts (first: %r); "
-                          "no failing input of the property found" % (len(corr_bad), chk.counters.get("evaluations", 0), corr_bad[0]["text"][:60]),
-                          {"broken": "correspondence C12/Model.v", "first": corr_bad[:5]}, no_input=True)
-        elif not proof["ok"]:
-            chk.violation("proof obligation no longer checks: %s" % proof["broken"],
-                          {"broken_obligation": proof["broken"], "coq_error": proof["error"], "generated": chk.generated_text}, no_input=True)
+    chk.counters["instrumented_code_objects"] = impl.instrumented
     return chk.finish(
         rule="every string of <= %d tokens over a %d-token alphabet (exhaustive), seeded random strings of 3-8 tokens, every ASCII line of "
              "tests/kgtests/**/*.kg and klongpy/lib/*.kg (sample of the two generated files) unedited and with seeded single and double "
-             "token edits (delete/insert/swap/truncate), whole files, nestings to depth 200; each text parsed twice under the event budget, "
-             "compared with the extracted model. distinct_nontrivial = distinct non-blank texts" % (2 if tier == "quick" else 3, len(ALPHABET)),
+             "token edits (delete/insert/swap/truncate), whole files, nestings to depth %d, the Coq witnesses; each text parsed twice under the "
+             "event budget 20000+3000n+50n^2, compared with the extracted model. distinct_nontrivial = distinct non-blank texts"
+             % (2 if tier == "quick" else 3, len(ALPHABET), 100 if tier == "quick" else 200),
         trusted_base=TRUSTED, assumptions=ASSUME,
         extra={"exhaustive": False})
 
@@ -617,6 +764,7 @@ def replay(path):
     body = json.load(open(path))
     rp = body.get("replay", {})
     text = rp.get("text")
+    history = rp.get("history") if isinstance(rp.get("history"), list) else []
     if text is None and isinstance(rp.get("first"), list) and rp["first"]:
         text = rp["first"][0].get("text")
     if text is None:
@@ -627,6 +775,8 @@ def replay(path):
     chk.build_model()
     impl = Impl()
     try:
+        for h in history:
+            print("history   :", repr(h), "->", impl.parse(h)[0][:2])
         r1, n1 = impl.parse(text)
         r2, n2 = impl.parse(text)
         c1 = ("ok", impl.dump_prog(r1[1])) if r1[0] == "ok" else r1
@@ -635,7 +785,7 @@ def replay(path):
     finally:
         impl.close()
     print("text      :", repr(text))
-    print("expected  : terminates within %d events; model says %s" % (BUDGET(len(text)), repr(m)[:300]))
+    print("expected  : terminates within %d events, both parses equal and equal to a fresh interpreter's; model says %s" % (BUDGET(len(text)), repr(m)[:300]))
     print("actual #1 : %s (%d events)" % (repr(c1)[:300], n1))
     print("actual #2 : %s (%d events)" % (repr(c2)[:300], n2))
     return 0
